@@ -143,6 +143,34 @@ def theorems_of(props_file):
     return re.findall(r"^\s*Theorem\s+([A-Za-z0-9_']+)", txt, flags=re.M)
 
 
+def coqchk(props_module, timeout=1500):
+    """re-check the compiled Props module and everything it depends on with the independent checker;
+    returns (ok, info): info = {"axioms": [...], "type_in_type": str, "unsafe_fix": str, "assumed_positive": str} or a message"""
+    rc, out = sh(["coqchk", "-o", "-silent", "-Q", ".", "SV", "SV." + props_module], timeout, cwd=COQ)
+    if rc != 0 or "CONTEXT SUMMARY" not in out:
+        return False, "coqchk failed (rc=%s):\n%s" % (rc, out[-2000:])
+    summ = out[out.index("CONTEXT SUMMARY"):]
+    sec = {}
+    cur = None
+    for line in summ.split("\n"):
+        m = re.match(r"\* ([^:]+):\s*(.*)", line)
+        if m:
+            cur = m.group(1).strip()
+            sec[cur] = [m.group(2).strip()] if m.group(2).strip() else []
+        elif cur and line.strip():
+            sec[cur].append(line.strip())
+    axioms = [a for a in sec.get("Axioms", []) if a != "<none>"]
+    info = {"axioms": axioms,
+            "type_in_type": " ".join(sec.get("Constants/Inductives relying on type-in-type", [])),
+            "unsafe_fix": " ".join(sec.get("Constants/Inductives relying on unsafe (co)fixpoints", [])),
+            "assumed_positive": " ".join(sec.get("Inductives whose positivity is assumed", []))}
+    bad = [a for a in axioms if not any(a.endswith(x) for x in ALLOWED_AXIOMS)]
+    clean = all(info[k] == "<none>" for k in ("type_in_type", "unsafe_fix", "assumed_positive"))
+    if bad or not clean:
+        return False, "coqchk context not clean: %s" % json.dumps(info)
+    return True, info
+
+
 def print_assumptions(prop_id, props_module, names, timeout=300):
     """compile a leaf file that prints the assumptions of every theorem;
     returns dict name -> list of axiom names, or raises RuntimeError"""
